@@ -52,6 +52,7 @@ type Term struct {
 	k    uint64
 	name string
 	id   int64
+	key  string // structural key, computed lazily (termKey)
 }
 
 var termID int64
@@ -615,4 +616,41 @@ func ufKey(t *Term, env map[string]uint64, memo map[*Term]uint64) string {
 		fmt.Fprintf(&sb, ",%d", evalTerm(x, env, memo))
 	}
 	return sb.String()
+}
+
+// termKey returns a structural key of t (equal keys => identical terms).
+func termKey(t *Term) string {
+	if t.key != "" {
+		return t.key
+	}
+	var sb strings.Builder
+	switch t.op {
+	case OpConst:
+		fmt.Fprintf(&sb, "c%d:%x", t.w, t.k)
+	case OpVar:
+		sb.WriteString("v:" + t.name)
+	default:
+		fmt.Fprintf(&sb, "(%d.%d.%x", t.op, t.w, t.k)
+		if t.name != "" {
+			sb.WriteString(":" + t.name)
+		}
+		for _, x := range []*Term{t.a, t.b, t.c} {
+			if x != nil {
+				sb.WriteByte(' ')
+				sb.WriteString(termKey(x))
+			}
+		}
+		for _, x := range t.xs {
+			sb.WriteByte(' ')
+			sb.WriteString(termKey(x))
+		}
+		sb.WriteByte(')')
+	}
+	k := sb.String()
+	if len(k) > 4096 {
+		// very large terms: fall back to identity (no sharing)
+		k = fmt.Sprintf("#%d", t.id)
+	}
+	t.key = k
+	return k
 }
